@@ -137,6 +137,8 @@ pub struct Ctx {
     shrunk: AtomicBool,
     pub hang_is_violation: bool,
     pub hang_limit: Duration,
+    /// upper bound for the time spent shrinking a counterexample
+    pub shrink_budget: Duration,
 }
 
 fn case_hash(v: &Value) -> u64 {
@@ -174,6 +176,7 @@ impl Ctx {
             shrunk: AtomicBool::new(false),
             hang_is_violation: false,
             hang_limit: Duration::from_secs(120),
+            shrink_budget: shrink_budget(),
         }
     }
     pub fn thorough(&self) -> bool {
@@ -261,6 +264,7 @@ impl Ctx {
         if self.failed() {
             return;
         }
+        let t_label = Instant::now();
         let jobs = self.jobs.min(cases.max(1) as usize).max(1);
         let per = cases / jobs as u64;
         let rem = cases % jobs as u64;
@@ -335,7 +339,7 @@ impl Ctx {
                                 if !in_failure.swap(true, Ordering::SeqCst) {
                                     self.stop.store(true, Ordering::SeqCst);
                                     *shrink_deadline.lock().unwrap() =
-                                        Some(Instant::now() + shrink_budget());
+                                        Some(Instant::now() + self.shrink_budget);
                                 }
                                 Err(TestCaseError::fail(reason))
                             }
@@ -372,7 +376,7 @@ impl Ctx {
             // watchdog
             s.spawn(|| {
                 while done.load(Ordering::SeqCst) < jobs {
-                    std::thread::sleep(Duration::from_millis(200));
+                    std::thread::sleep(Duration::from_millis(50));
                     for slot in current.iter() {
                         let g = slot.lock().unwrap();
                         if let Some((t0, cv)) = &*g {
@@ -386,6 +390,10 @@ impl Ctx {
                 }
             });
         });
+        self.stats.lock().unwrap().subspaces.push(json!({
+            "label": label, "space": "random search (proptest)", "cases_requested": cases,
+            "wall_s": (t_label.elapsed().as_secs_f64() * 100.0).round() / 100.0
+        }));
     }
 
     fn hang(&self, label: &str, case: Value) -> ! {
@@ -480,7 +488,7 @@ impl Ctx {
             }
             s.spawn(|| {
                 while done.load(Ordering::SeqCst) < jobs {
-                    std::thread::sleep(Duration::from_millis(200));
+                    std::thread::sleep(Duration::from_millis(50));
                     for slot in current.iter() {
                         let g = slot.lock().unwrap();
                         if let Some((t0, i)) = &*g {
